@@ -101,7 +101,7 @@ CLAIMED['C06'] = {
             'permitted rendering of every tree, with redundant parentheses and permitted line breaks, parses to that tree modulo flatten, any number of precedence '
             'levels, full and simple parser), soundness and totality, unambiguity, precedence, lazy left-to-right evaluation, left-to-right composition of |; the '
             'pre-fix parser (operator accepted as closing parenthesis) is refuted by witness; operator and truth tables of the six host types regenerated from the '
-            'live Grammar objects on every run. 12 theorems closed under the global context. Tie: ~5000 cases per quick run (permitted, arbitrary-layout and '
+            'live Grammar objects on every run; every simple-expression context ends its argument before an operator (theorem + regenerated table). 14 theorems closed under the global context. Tie: ~5000 cases per quick run (permitted, arbitrary-layout and '
             'malformed streams for six host types, 13 nested contexts, 272 end-to-end cases; each parsed object evaluated 1-3 times).',
     'note': 'Modelled, not verified: _Parser (expression/parser.py), the TokenParser primitives it calls, Negation/Conjunction/Disjunction.matches_w_trace, '
             'SequenceStringTransformer.transform. Token level: a primitive with its arguments is one word; tokenisation is C09. The set of permitted line breaks is '
@@ -114,7 +114,7 @@ CLAIMED['C09'] = {
             'tokens - mixed quoting is refuted, open known finding KF-C09-1; the line number of a syntax-error report is tested end to end, not proved): theorems over a '
             'model of shlex.read_token as configured, TokenStream, symbol_syntax.split, parse_string, the rich-string / here-document parser and the list loop: token '
             'boundaries, unterminated quote is an error, consume is total (no IndexError), split is THE leftmost decomposition, here-document body exact, unterminated '
-            'here-document is an error. 12 theorems closed under the global context; two refuted-by-witness (mixed quotes; the pre-fix exotic-space word).',
+            'here-document is an error; token loops never skip an invalid head. 15 theorems closed under the global context (10 full, 1 partial, 4 refuted-by-witness: mixed quotes and three pre-fix behaviours).',
     'note': 'Model tied to the running code by ~8000 (quick) / 80000 (thorough) generated sources incl. end-to-end `file f = ...` runs, and by tables regenerated from the '
             'running interpreter (white-space set over all code points, reserved tokens, delimiters). str.isalnum is an oracle. The Python text is modelled, not verified. '
             'The predicate accepts two readings of "substituted except inside hard quotes" that differ only for a reference written across a fragment boundary.',
@@ -149,11 +149,11 @@ CLAIMED['C14'] = {
             'the guard they are refuted by machine-checked witnesses = open known findings KF-C14-1, KF-C14-2): for every source tree (literal, file, program output, line '
             'transformers, filter, run, two-part concat), every mem_buff_size and every access sequence before and after freezing, every view shows the denoted text; verdicts '
             'depend only on the text; M, ( M && M ), ( M || M ) and identity-wrapped M agree; equals agrees over all 3x3 source kinds; the spool keeps the text for every '
-            'buffer size (UTF-8 byte level, round trip proved); pre-fix spool and pre-fix concat refuted. 13 theorems closed under the global context.',
+            'buffer size (UTF-8 byte level, round trip proved); n-ary concat and `replace` yield exactly the lines of their text; buffer size irrelevant; pre-fix spool and pre-fix concat refuted. 16 theorems closed under the global context.',
     'note': 'Hand-written state-passing interpreter of 14 anchored modules; line transformers and external programs are abstract functions with an admissibility hypothesis '
             '(instances proved for identity, filter, ASCII upper-case, cat, tr, tail). Tie: ~3300 (quick) / 40000 (thorough) differential cases incl. the deviating inputs, '
-            'through the real parsers with chosen mem_buff_size. Outside the model: n-ary concat beyond two parts, program -stdin, stderr sources, texts larger than the 8 KiB io '
-            'buffers. Trusted: Coq kernel + vm_compute, the model, the harness, CPython io/str semantics as modelled.',
+            'through the real parsers with chosen mem_buff_size, incl. texts of 9-40 KiB, U+FEFF/NUL, program sources whose output differs per run ("one text after freeze" is judged '
+            'on the running code; the theorems assume a program prints the same at every run). Trusted: Coq kernel + vm_compute, the model, the harness, CPython io/str semantics as modelled.',
     'technique': 'Coq theorem over hand model (state-passing interpreter of string-source objects, induction over source tree and access sequence) + differential correspondence',
 }
 CLAIMED['C17'] = {
@@ -161,7 +161,7 @@ CLAIMED['C17'] = {
             'OTHER process-global state in exactly_lib is checked by differential runs only): merge order (suite first, case first in cleanup) composed with the C01 schedule; '
             'standalone (--suite / beside exactly.suite) = in-suite handling; contents not inherited by sub-suites; a case changes no object that existed before it for every '
             'copy policy with a copy on each path, and every policy lacking a copy leaks (all 128 policies); world restored; a case behaves as if alone (refinement to a '
-            'store-free reference semantics). 13 theorems closed under the global context.',
+            'store-free reference semantics); suite instruction objects shared across cases: stateless ones are independent, a caching one is refuted. 15 theorems closed under the global context.',
     'note': 'First-order store model of processors.py/_exe_conf_that_may_be_updated, executor.py copies, execution.py preserved_cwd/rmtree, suite_file_reading.py, '
             'accessor_resolver.py; modelled, not verified; tie = three differential experiments per run (real suites run three ways; real histories in every order vs '
             'fresh-process baselines; stub instructions mutating every handle through the public executor).',
@@ -249,7 +249,7 @@ CLAIMED['C18'] = {
             'layer and Exception class, parse-time exceptions are SYNTAX_ERROR, HardErrorException is HARD_ERROR, INTERNAL_ERROR only from non-HardError exceptions, '
             'non-Exception BaseExceptions escape (refuted totality witness = KF-C18-3); python_evaluate classifies every integer expression as value / not-an-integer (pre-fix '
             'catch set refuted); replacement templates never internal (pre-fix refuted); obligations regenerated from the source (except chains read by an ast visitor, issubclass '
-            'table, 2.4k-row route table raised through the real program). 20 theorems closed under the global context. Open known findings KF-C18-2/3/4/5/8(/10) are listed.',
+            'table, 2.4k-row route table raised through the real program). 21 theorems closed under the global context. Open known findings KF-C18-2/3/4/5/8/12/13 are listed; FIX-C18-1..7 repaired.',
     'note': 'Hand-written model of the try/except chains of 20 anchored functions, of python_evaluate over Python integer arithmetic and of CPython\'s replacement-template parser; '
             'modelled, not verified; tied to the source on every run by (i) the class names of every except clause read from the source, (ii) every exception class raised through '
             'the real program at every site via a text-driven stub instruction/actor, (iii) differential runs of integer expressions, templates and ~2000 (quick) / ~33000 '
